@@ -239,8 +239,7 @@ class CONNECT(object):
         if self.username is not None:
              payload.extend(encodeString(self.username))
         if self.password is not None:
-            payload.extend(encode16Int(len(self.password)))
-            payload.extend(bytearray(self.password, encoding='ascii', errors='ignore'))
+            payload.extend(encodeString(self.password))
         # ---- Build the packet once all lengths are known ----
         header.extend(encodeLength(len(varHeader) + len(payload)))
         header.extend(varHeader)
